@@ -252,6 +252,12 @@ def bv_cases(mgr, w):
             lambda a, k=k: (a << k) % M_ if k < w else 0)
         add('infix >> %d' % k, [T], lambda a, k=k: a >> k,
             lambda a, k=k: a >> k if k < w else 0)
+        add('.BVLShl(%d)' % k, [T], lambda a, k=k: a.BVLShl(k),
+            lambda a, k=k: (a << k) % M_ if k < w else 0)
+        add('.BVLShr(%d)' % k, [T], lambda a, k=k: a.BVLShr(k),
+            lambda a, k=k: a >> k if k < w else 0)
+        add('.BVAShr(%d)' % k, [T], lambda a, k=k: a.BVAShr(k),
+            lambda a, k=k: (tc(a, w) >> min(k, w)) % M_)
     # infix on BV
     add('infix + bv', [T, T], lambda a, b: a + b, lambda a, b: (a + b) % M_)
     add('infix - bv', [T, T], lambda a, b: a - b, lambda a, b: (a - b) % M_)
@@ -422,6 +428,45 @@ def run_case(rep, env, name, sorts, build, py, rng):
                               name, B.show(fb, 160), list(vals),
                               R.vrepr(got), R.vrepr(exp)), {'case': name})
             break
+    # the same expression in two argument positions
+    pairs = [(i, j) for i in range(len(sorts)) for j in range(i + 1,
+                                                              len(sorts))
+             if sorts[i] == sorts[j]]
+    for (i, j) in pairs[:1] + pairs[-1:] if len(pairs) > 1 else pairs:
+        args2 = list(args)
+        args2[j] = args[i]
+        try:
+            f2 = build(*args2)
+        except Exception as e:
+            rep.violation('C06/raises/%s' % name.split(' [')[0],
+                          '%s with one symbol in two positions raised %r '
+                          'at %s' % (name, e, common.tb_short(e)),
+                          {'case': name})
+            continue
+        fb2 = B.describe(f2)
+        for vals in itertools.product(*doms):
+            if vals[i] != vals[j]:
+                continue
+            try:
+                exp = py(*vals)
+            except Skip:
+                continue
+            I = dict((a.symbol_name(), v) for a, v in zip(args, vals))
+            try:
+                got = R.evaluate(fb2, I)
+            except R.Unconstrained:
+                continue
+            n += 1
+            rep.count('aliased_argument_tuples')
+            if got != exp or (isinstance(exp, bool) != isinstance(got, bool)):
+                rep.violation('C06/denotes/%s' % name.split(' [')[0],
+                              '%s with one symbol in positions %d and %d '
+                              'built %s; at %s it denotes %s, the named '
+                              'function gives %s' % (
+                                  name, i, j, B.show(fb2, 160), list(vals),
+                                  R.vrepr(got), R.vrepr(exp)),
+                              {'case': name})
+                break
     rep.count('argument_tuples_evaluated', n)
     rep.case(key=name, sample='%s -> %s (%d argument tuples)' % (
         name, B.show(fb, 80), n) if hash(name) % 97 == 0 else None)
